@@ -43,6 +43,10 @@ def gen_package_json(rng):
             real = rng.choice(["@scope/real", "real-pkg"]); s = npm_spec(rng, u).split(" ")[0]
             if rng.chance(1, 4):      # an alias without a version means "latest"
                 tok = f"npm:{real}"; deps.append((sec, key, tok, (real, "latest", None, tok)))
+            elif rng.chance(1, 3):    # the target's NAME contains the spec text (es6-promise@6, vue2@2): the spec is the last occurrence
+                s = rng.choice([s.lstrip("^~>=v").split("-")[0], s.lstrip("^~>=v")[0]])
+                real = rng.choice([f"es{s}-promise", f"vue{s}", f"@scope/{s}"])
+                tok = f"npm:{real}@{s}"; deps.append((sec, key, tok, (real, s, None, tok)))
             else:
                 tok = f"npm:{real}@{s}"; deps.append((sec, key, tok, (real, s, None, tok)))
         elif k < 10:
@@ -188,7 +192,10 @@ def gen_deno(rng):
         k = rng.below(10)
         alias = rng.choice(["@std/path", "x", "lib/", "é"]) + str(i)
         v = u.ver()
-        if k < 5:
+        if k < 1:       # the package NAME contains the spec text: the spec is the last occurrence
+            s = rng.choice([v, v[0]]); tok = f"jsr:@luca/flag{s}@{s}"
+            deps.append((alias, tok, (f"@luca/flag{s}", s, None, tok)))
+        elif k < 5:
             s = rng.choice([v, "^" + v, "~" + v]); tok = f"jsr:@std/path@{s}"
             deps.append((alias, tok, ("@std/path", s, None, tok)))
         elif k < 6:
